@@ -273,7 +273,21 @@ func runProperty(r *Runner, p *Property, tier string, seed int, t0 time.Time) in
 	backends := map[string]int{}
 	var lines []string
 	replayDir := filepath.Join(outDir(), "replays", p.ID)
+	var bounded []interface{}
 	for _, e := range entries {
+		if e.Kind == "bounded" {
+			// bounded stand-ins are reported on their own and never counted as discharged obligations
+			bounded = append(bounded, map[string]interface{}{"check": e.Name, "status": e.Status, "coverage": e.Detail, "labelled": "bounded stand-in, not a proof"})
+			switch e.Status {
+			case "discharged":
+			case "failed":
+				violations++
+				lines = append(lines, fmt.Sprintf("VIOLATION property=%s replay=%s", p.ID, e.replayInput))
+			default:
+				broken = append(broken, e.Name+": "+e.Detail)
+			}
+			continue
+		}
 		total++
 		if e.Status == "discharged" {
 			discharged++
@@ -380,6 +394,9 @@ func runProperty(r *Runner, p *Property, tier string, seed int, t0 time.Time) in
 	}
 	if p.Subset != "" {
 		cov["proved_subset"] = p.Subset
+	}
+	if len(bounded) > 0 {
+		cov["bounded_standins"] = bounded
 	}
 	if level != "proof" || total == 0 {
 		level = "other"
